@@ -258,7 +258,7 @@ package starlark
 // selection, so implementations never index with it). Its result is determined by the selected
 // index sequence  first, first+step, ... (count elements).
 //@ func Sliceable.Slice
-//@   requires step != 0
+//@   requires step != 0 && fits32(step)
 //@   requires step > 0 ==> 0 <= start && start <= end && end <= seqlen(self)
 //@   requires step < 0 ==> -1 <= end && end <= start && (start < seqlen(self) || start == end)
 //@   pure
@@ -539,12 +539,14 @@ package starlark
 //@   ensures result == fr.callable
 
 //@ func Function.CallInternal
-//@   prop C07 C09
+//@   prop C07 C09 C16
 //@   modifies *
 //@   invariant 1 rangeindex >= -1 && !f.Prog.Recursion && forall(k, 0, rangeindex + 1, !(typeis(thread.stack[k].callable, *Function) && as(thread.stack[k].callable, *Function).funcode == f))
 //@   assert /fr := thread.frameAt\(0\)/ [C09] recursion_detected: !f.Prog.Recursion ==> forall(k, 0, len(thread.stack) - 1, !(typeis(thread.stack[k].callable, *Function) && as(thread.stack[k].callable, *Function).funcode == f))
 //@   assert /fr := thread.frameAt\(0\)/ [C02,C07] depth_bounded: f.Prog.Recursion ==> len(thread.stack) <= 100000
 //@   assert /fr.locals = locals/ [C08] arguments_were_bound: (f.NumParams == 0 ==> len(args) + len(kwargs) == 0) && forall(k, 0, npos(fn, len(args)), locals[k] == args[k])
+//@   snap /op := compile.Opcode\(code\[pc\]\)/ pc_at_fetch = pc
+//@   assert /if op >= compile.OpcodeArgMin/ [C16] frame_pc_is_the_failing_instruction: fallible(op) ==> fr.pc == pc_at_fetch
 //@   snap /thread.Steps\+\+/ s0 = thread.Steps
 //@   snap /thread.Steps\+\+/ nocallback = isnil(thread.OnMaxSteps)
 //@   snap /thread.Steps\+\+/ limit = thread.maxSteps
@@ -839,12 +841,62 @@ package starlark
 //@   prop C04
 //@   nopanic
 //@   modifies nothing
-//@   ensures result != nil && freshobj(result) && !result.frozen && result.itercount == 0 && len(result.elems) == len(elems) && storeof(result.elems) == storeof(elems)
+//@   ensures result != nil && freshobj(result) && !result.frozen && result.itercount == 0 && sameslice(result.elems, elems)
 //@ func List.Slice
 //@   prop C04 C13
-//@   requires l != nil && step != 0
+//@   requires l != nil && step != 0 && fits32(step)
 //@   requires step > 0 ==> 0 <= start && start <= end && end <= len(l.elems)
 //@   requires step < 0 ==> -1 <= end && end <= start && (start < len(l.elems) || start == end)
-//@   invariant 1 (isnil(list) && len(list) == 0 && cap(list) == 0) || freshobj(storeof(list))
+//@   invariant 1 ((isnil(list) && len(list) == 0 && cap(list) == 0) || freshobj(storeof(list))) && i == start + len(list) * step && (len(list) > 0 ==> (step > 0 ==> start + (len(list) - 1) * step < end) && (step < 0 ==> start + (len(list) - 1) * step > end)) && forall(k, 0, len(list), list[k] == l.elems[start + k * step])
 //@   ensures new_unfrozen_list: typeis(result, *List) && as(result, *List) != l && freshobj(as(result, *List)) && !as(result, *List).frozen
 //@   ensures own_storage: len(as(result, *List).elems) > 0 ==> freshobj(storeof(as(result, *List).elems))
+//@   ensures selects_every_step_th: forall(k, 0, len(as(result, *List).elems), as(result, *List).elems[k] == l.elems[start + k * step])
+//@   ensures stays_in_range: len(as(result, *List).elems) > 0 ==> (step > 0 ==> start + (len(as(result, *List).elems) - 1) * step < end) && (step < 0 ==> start + (len(as(result, *List).elems) - 1) * step > end)
+//@   ensures stops_only_at_the_end: (step > 0 ==> start + len(as(result, *List).elems) * step >= end) && (step < 0 ==> start + len(as(result, *List).elems) * step <= end)
+
+// ---- Slice implementations (C13): x[start:end:step] after normalisation selects start, start+step, ...
+// while the index is on the near side of end -- no element more, no element less
+//@ func Tuple.Slice
+//@   prop C13
+//@   requires step != 0 && fits32(step)
+//@   requires step > 0 ==> 0 <= start && start <= end && end <= len(t)
+//@   requires step < 0 ==> -1 <= end && end <= start && (start < len(t) || start == end)
+//@   invariant 1 ((isnil(tuple) && len(tuple) == 0 && cap(tuple) == 0) || freshobj(storeof(tuple))) && i == start + len(tuple) * step && (len(tuple) > 0 ==> (step > 0 ==> start + (len(tuple) - 1) * step < end) && (step < 0 ==> start + (len(tuple) - 1) * step > end)) && forall(k, 0, len(tuple), tuple[k] == t[start + k * step])
+//@   ensures selects_every_step_th: typeis(result, Tuple) && forall(k, 0, len(as(result, Tuple)), as(result, Tuple)[k] == t[start + k * step])
+//@   ensures stays_in_range: len(as(result, Tuple)) > 0 ==> (step > 0 ==> start + (len(as(result, Tuple)) - 1) * step < end) && (step < 0 ==> start + (len(as(result, Tuple)) - 1) * step > end)
+//@   ensures stops_only_at_the_end: (step > 0 ==> start + len(as(result, Tuple)) * step >= end) && (step < 0 ==> start + len(as(result, Tuple)) * step <= end)
+//@ func String.Slice
+//@   prop C13
+//@   requires step != 0 && fits32(step)
+//@   requires step > 0 ==> 0 <= start && start <= end && end <= len(s)
+//@   requires step < 0 ==> -1 <= end && end <= start && (start < len(s) || start == end)
+//@   invariant 1 ((isnil(str) && len(str) == 0 && cap(str) == 0) || freshobj(storeof(str))) && i == start + len(str) * step && (len(str) > 0 ==> (step > 0 ==> start + (len(str) - 1) * step < end) && (step < 0 ==> start + (len(str) - 1) * step > end)) && forall(k, 0, len(str), str[k] == s[start + k * step])
+//@   ensures selects_every_step_th: typeis(result, String) && forall(k, 0, len(as(result, String)), as(result, String)[k] == s[start + k * step])
+//@   ensures stays_in_range: len(as(result, String)) > 0 ==> (step > 0 ==> start + (len(as(result, String)) - 1) * step < end) && (step < 0 ==> start + (len(as(result, String)) - 1) * step > end)
+//@   ensures stops_only_at_the_end: (step > 0 ==> start + len(as(result, String)) * step >= end) && (step < 0 ==> start + len(as(result, String)) * step <= end)
+//@ func Bytes.Slice
+//@   prop C13
+//@   requires step != 0 && fits32(step)
+//@   requires step > 0 ==> 0 <= start && start <= end && end <= len(b)
+//@   requires step < 0 ==> -1 <= end && end <= start && (start < len(b) || start == end)
+//@   invariant 1 ((isnil(str) && len(str) == 0 && cap(str) == 0) || freshobj(storeof(str))) && i == start + len(str) * step && (len(str) > 0 ==> (step > 0 ==> start + (len(str) - 1) * step < end) && (step < 0 ==> start + (len(str) - 1) * step > end)) && forall(k, 0, len(str), str[k] == b[start + k * step])
+//@   ensures selects_every_step_th: typeis(result, Bytes) && forall(k, 0, len(as(result, Bytes)), as(result, Bytes)[k] == b[start + k * step])
+//@   ensures stays_in_range: len(as(result, Bytes)) > 0 ==> (step > 0 ==> start + (len(as(result, Bytes)) - 1) * step < end) && (step < 0 ==> start + (len(as(result, Bytes)) - 1) * step > end)
+//@   ensures stops_only_at_the_end: (step > 0 ==> start + len(as(result, Bytes)) * step >= end) && (step < 0 ==> start + len(as(result, Bytes)) * step <= end)
+
+// ---- startswith / endswith with a sub-range (C13): both test the same effective operand,
+// recv[start:end] after Python's normalisation of start and end
+//@ specfn lo3(v iface, n int) int = clamp(norm(v, n, 0), 0, n)
+//@ specfn hi3(v iface, n int) int = max(clamp(norm(v, n, n), 0, n), lo3(v, n))
+//@ func string_startswith
+//@   prop C13
+//@   assert /if b.Name\(\)\[0\] == 'e'/ tests_the_sub_range: len(s) == max(clamp(norm(end, len(as(b.recv, String)), len(as(b.recv, String))), 0, len(as(b.recv, String))), lo3(start, len(as(b.recv, String)))) - lo3(start, len(as(b.recv, String))) && forall(k, 0, len(s), s[k] == as(b.recv, String)[lo3(start, len(as(b.recv, String))) + k])
+//@ func Builtin.Receiver
+//@   pure
+//@   ensures result == b.recv
+
+// ---- C17: what CompiledProgram decodes is the whole stream it was given (whatever its size),
+// and Program.Write hands the encoder's output to the writer unchanged
+//@ func CompiledProgram
+//@   prop C17
+//@   assert /compile.DecodeProgram\(data\)/ decodes_the_whole_stream: bytesid(data) == streamid(refof(in))
